@@ -509,10 +509,6 @@ def run(chk):
 
 
 def _run(chk, res, gates, binary, docs):
-    if not chk.findings:  # TEMPORARY fallback until the lead merges build/kf-C18.json into known_findings.json
-        p = os.path.join(vlib.VERIF, "build", "kf-C18.json")
-        if os.path.exists(p):
-            chk.findings = json.load(open(p))
     known = {f["id"] for f in chk.findings if f.get("status") == "known"}
     if VARIANT == "Repaired":
         known = set()
